@@ -27,6 +27,7 @@ import (
 	"go/ast"
 	"go/constant"
 	"go/types"
+	"strings"
 )
 
 const reflectPrelude = `(declare-fun kindOfTid (Int) Int)
@@ -179,6 +180,10 @@ func init() {
 	one := func(f func(c *FnCtx, a []string, st *State) string) libModel {
 		return func(c *FnCtx, x *ast.CallExpr, fobj *types.Func, a []string, st *State) []string {
 			c.useReflect()
+			if rv := fobj.Type().(*types.Signature).Recv(); rv != nil && isIface(rv.Type()) && len(a) > 0 {
+				// method of reflect.Type called on a nil interface value panics
+				c.safety(st, "nilderef", "reflect.Type."+fobj.Name(), not(eq(a[0], "inil")), x.Pos())
+			}
 			r := f(c, a, st)
 			if c.specMode == 0 {
 				// the result is a value of its Go type (integer range, well-formed interface value)
@@ -223,22 +228,71 @@ func init() {
 		return []string{r}
 	}
 	libModels["reflect.(Type).Kind"] = one(func(c *FnCtx, a []string, st *State) string { return "(kindOfTid (iint " + a[0] + "))" })
+	libModels["reflect.(Type).Name"] = one(func(c *FnCtx, a []string, st *State) string {
+		c.declareFun("nameOfTid", []string{"Int"}, sString)
+		return "(nameOfTid (iint " + a[0] + "))"
+	})
 	libModels["reflect.(Type).Size"] = one(func(c *FnCtx, a []string, st *State) string { return "(sizeOfTid (iint " + a[0] + "))" })
 	libModels["reflect.(Type).Elem"] = one(func(c *FnCtx, a []string, st *State) string { return c.rtypeBox("(elemOfTid (iint " + a[0] + "))") })
 	libModels["reflect.(Type).Implements"] = one(func(c *FnCtx, a []string, st *State) string {
 		return "(implements (iint " + a[0] + ") (iint " + a[1] + "))"
 	})
+	libModels["reflect.New"] = func(c *FnCtx, x *ast.CallExpr, fobj *types.Func, a []string, st *State) []string {
+		c.useReflect()
+		return c.pureUF("rnew", fobj, a, st, false)
+	}
+	libModels["reflect.(Value).Call"] = func(c *FnCtx, x *ast.CallExpr, fobj *types.Func, a []string, st *State) []string {
+		// a reflective call is a function of the method value and the arguments (the methods reached this way,
+		// generated ΛMap / ΛListKeyMap style accessors, read no mutable state); nothing is known about the result
+		c.useReflect()
+		return c.pureUF("rcall", fobj, a, st, false)
+	}
+	// strings.Split with a constant non-empty separator: the result has 1 + (number of non-overlapping separators)
+	// elements; the one- and two-element cases are described exactly.
+	libModels["strings.Split"] = func(c *FnCtx, x *ast.CallExpr, fobj *types.Func, a []string, st *State) []string {
+		r := c.pureUF("ssplit", fobj, a, st, false)
+		tv, ok := c.info().Types[x.Args[1]]
+		if !ok || tv.Value == nil || tv.Value.Kind() != constant.String || constant.StringVal(tv.Value) == "" || c.specMode != 0 {
+			return r
+		}
+		s, sep := a[0], a[1]
+		n, srt := c.elemsArr(types.Typ[types.String])
+		el := func(i int) string {
+			return sel(sel(c.h(st, n, srt), "(sbase "+r[0]+")"), fmt.Sprintf("(+ (soff %s) %d)", r[0], i))
+		}
+		i := "(str.indexof " + s + " " + sep + " 0)"
+		rest := "(str.substr " + s + " (+ " + i + " (str.len " + sep + ")) (str.len " + s + "))"
+		ln := "(slen " + r[0] + ")"
+		st.addFact(and("(>= "+ln+" 1)", eq(eq(ln, "1"), "(< "+i+" 0)"), implies(eq(ln, "1"), eq(el(0), s)),
+			implies("(>= "+i+" 0)", eq(eq(ln, "2"), not("(str.contains "+rest+" "+sep+")"))),
+			implies(eq(ln, "2"), and(eq(el(0), "(str.substr "+s+" 0 "+i+")"), eq(el(1), rest)))))
+		c.abstractions["strings.Split (library model: element count 1 + separators; 1- and 2-element results exact)"] = true
+		return r
+	}
 	// strconv
 	libModels["strconv.ParseInt"] = parseIntModel("parseIntOk")
 	libModels["strconv.ParseUint"] = parseIntModel("parseUintOk")
 	libModels["strconv.FormatFloat"] = func(c *FnCtx, x *ast.CallExpr, fobj *types.Func, a []string, st *State) []string {
 		c.useReflect()
-		if tv, ok := c.info().Types[x.Args[1]]; ok && tv.Value != nil {
-			if n, ok2 := constant.Int64Val(constant.ToInt(tv.Value)); ok2 && n == 'f' {
+		// the laws hold for shortest-representation formatting (precision -1) at bit size 64 only
+		is := func(e ast.Expr, want int64) bool {
+			tv, ok := c.info().Types[e]
+			if !ok || tv.Value == nil {
+				return false
+			}
+			n, ok2 := constant.Int64Val(constant.ToInt(tv.Value))
+			return ok2 && n == want
+		}
+		if len(x.Args) == 4 && is(x.Args[2], -1) && is(x.Args[3], 64) {
+			if is(x.Args[1], 'f') {
 				return []string{"(fmtFloatF " + a[0] + ")"}
 			}
+			if is(x.Args[1], 'g') || is(x.Args[1], 'e') {
+				return []string{"(fmtFloatG " + a[0] + ")"}
+			}
 		}
-		return []string{"(fmtFloatG " + a[0] + ")"}
+		c.abstractions["pure-uf:strconv.FormatFloat"] = true
+		return c.pureUF("lib!strconv.FormatFloat", fobj, a, st, false)
 	}
 }
 
@@ -267,11 +321,14 @@ func parseIntModel(okFn string) libModel {
 // ok=false: not of that shape.
 func sprintfScalar(c *FnCtx, x *ast.CallExpr, args []string, st *State) (string, bool) {
 	tv, ok := c.info().Types[x.Args[0]]
-	if !ok || tv.Value == nil || tv.Value.Kind() != constant.String || len(x.Args) != 2 || x.Ellipsis.IsValid() {
+	if !ok || tv.Value == nil || tv.Value.Kind() != constant.String || x.Ellipsis.IsValid() {
 		return "", false
 	}
 	format := constant.StringVal(tv.Value)
-	if len(format) != 2 || format[0] != '%' {
+	if s, ok := sprintfAllStrings(c, x, format, args); ok {
+		return s, true
+	}
+	if len(x.Args) != 2 || len(format) != 2 || format[0] != '%' {
 		return "", false
 	}
 	at := c.info().TypeOf(x.Args[1])
@@ -297,4 +354,54 @@ func sprintfScalar(c *FnCtx, x *ast.CallExpr, args []string, st *State) (string,
 		return ite(and("(<= 2 "+k+")", "(<= "+k+" 12)"), "(itoa (iint "+v+"))", ite(isFloat(), "(fmtFloatG (ifp "+v+"))", ite(eq(k, fmt.Sprint(kString)), "(istr "+v+")", "(fmtV "+v+")"))), true
 	}
 	return "", false
+}
+
+// sprintfAllStrings handles Sprintf whose format consists of literal text and %s verbs only, one per argument,
+// every argument being of a string type without methods: the result is the concatenation.
+func sprintfAllStrings(c *FnCtx, x *ast.CallExpr, format string, args []string) (string, bool) {
+	var parts []string
+	lit := ""
+	n := 1
+	for i := 0; i < len(format); i++ {
+		if format[i] != '%' {
+			lit += string(format[i])
+			continue
+		}
+		if i+1 >= len(format) {
+			return "", false
+		}
+		i++
+		switch format[i] {
+		case '%':
+			lit += "%"
+		case 's':
+			if n >= len(x.Args) || n >= len(args) {
+				return "", false
+			}
+			at := c.info().TypeOf(x.Args[n])
+			b, ok := at.Underlying().(*types.Basic)
+			if !ok || b.Info()&types.IsString == 0 {
+				return "", false
+			}
+			if nm, ok := at.(*types.Named); ok && nm.NumMethods() > 0 {
+				return "", false
+			}
+			if lit != "" {
+				parts = append(parts, strLit(lit))
+				lit = ""
+			}
+			parts = append(parts, "(istr "+args[n]+")")
+			n++
+		default:
+			return "", false
+		}
+	}
+	if n != len(x.Args) || n < 3 {
+		return "", false // single-verb formats keep their dedicated model
+	}
+	if lit != "" {
+		parts = append(parts, strLit(lit))
+	}
+	c.useReflect()
+	return "(str.++ " + strings.Join(parts, " ") + ")", true
 }
